@@ -47,8 +47,8 @@ THEOREMS["C17"] = [("Flurry.Props.C17", [
     "Flurry.C17.inserting_needs_send_sync", "Flurry.C17.lookup_unbounded", "Flurry.C17.binentry_conditional"])]
 
 TIERS = {
-    "quick": {"seq_cases": 400, "seq_ops": 60, "search_mult": 6},
-    "thorough": {"seq_cases": 20000, "seq_ops": 160, "search_mult": 3},
+    "quick": {"seq_cases": 400, "seq_ops": 60, "search_mult": 6, "conc_cases": 1500},
+    "thorough": {"seq_cases": 20000, "seq_ops": 160, "search_mult": 3, "conc_cases": 60000},
 }
 
 
@@ -186,6 +186,84 @@ def seq_step(R, prop, own_classes=None, seeds=None):
                   "samples": samples, "cases": total_cases, "input_distribution": agg,
                   "model_disagreements_this_property": len(diffs_own), "order_only_differences": benign,
                   "search": "on any break: %d further rounds of the same suite with fresh seeds" % t["search_mult"]})
+
+
+CONC_TAGS = {
+    "lin": ["C01"], "cip": ["C08"], "deadlock": ["C11"], "livelock": ["C11"], "read-blocks": ["C12"],
+    "quiescent": ["C05"], "panic": ["C01"], "double-free": ["C03", "C04"], "crash": ["C01", "C03", "C08", "C11", "C12", "C05", "C10", "C13", "C07"],
+    "uaf": ["C03"], "early-free": ["C03", "C04"], "retire-reachable": ["C03"], "drop": ["C04"], "iter": ["C07"], "retain": ["C13"],
+    "resize": ["C10"], "hb": ["C15"],
+}
+
+
+def conc_props_of(f):
+    m = re.match(r"^\[([^\]]+)\]", f)
+    tag = m.group(1) if m else ""
+    ps = list(CONC_TAGS.get(tag, ["C01"]))
+    if tag == "lin" and ("cipinc" in f or "ciprm" in f):
+        ps.append("C08")
+    if tag == "quiescent" and re.search(r"size_ctl|next_table|forwarding", f):
+        ps.append("C10")
+    return ps
+
+
+def conc_step(R, prop, extra_args=None, cases=None, suite="conc"):
+    """scheduled concurrent suite: failures of this property -> failing inputs; per-key history
+    certificates are re-validated by the Lean checker (`Lin.validate`)"""
+    t = TIERS[R.tier]
+    n = cases or t["conc_cases"]
+    rounds = [(R.seed, n)]
+    agg = {"cases": 0, "steps": 0, "ops": 0, "keys_checked": 0, "distinct_nontrivial": 0, "runs_with_lock_contention": 0,
+           "runs_with_resize": 0, "runs_ending_with_tree_bin": 0, "hook_sites": 0, "certificates_validated_by_lean": 0}
+    samples, searched, cert_bad = [], False, []
+    base = os.path.join(C.BUILD, "run", "%s-%d" % (suite, os.getpid()))
+    os.makedirs(os.path.dirname(base), exist_ok=True)
+    while rounds:
+        seed, cases_n = rounds.pop(0)
+        cmd = [C.HARNESS_BIN, suite, "--seed", str(seed), "--cases", str(cases_n), "--lin", base + ".lin", "--progress", base + ".progress"]
+        if R.tier == "thorough":
+            cmd += ["--big", "1"]
+        cmd += extra_args or []
+        rc, out = C.sh(cmd, timeout=7200)
+        lines = [l for l in out.splitlines() if l.startswith("{")]
+        if rc != 0 or not lines:
+            where = open(base + ".progress").read() if os.path.exists(base + ".progress") else "?"
+            f = "[crash] the harness process died (exit %d) while running %s: memory corruption or abort inside the implementation" % (rc, where)
+            if prop in CONC_TAGS["crash"]:
+                m = re.search(r"case-seed (\d+)", where)
+                R.add_failing(f, {"suite": suite, "how": "%s %s --case-seed %s --verbose 1" % (C.HARNESS_BIN, suite, m.group(1) if m else "?")})
+            break
+        rep = json.loads(lines[-1])
+        for k in agg:
+            if k in rep:
+                agg[k] = max(agg[k], rep[k]) if k == "hook_sites" else agg[k] + rep[k]
+        samples = samples or rep.get("samples", [])[:2]
+        for f in rep["failures"]:
+            if prop in conc_props_of(f):
+                m = re.search(r"\[case-seed (\d+)\]", f)
+                R.add_failing(f, {"suite": suite, "how": "%s %s --case-seed %s --verbose 1" % (C.HARNESS_BIN, suite, m.group(1) if m else "?")})
+        if prop in ("C01", "C08") and os.path.exists(C.MODEL_BIN) and os.path.exists(base + ".lin"):
+            rc2, mout = C.sh("%s < %s.lin" % (C.MODEL_BIN, base), timeout=1200)
+            ls = [l for l in mout.splitlines() if not l.startswith("WARNING")]
+            src = open(base + ".lin").read().splitlines()
+            agg["certificates_validated_by_lean"] += sum(1 for l in ls if l == "ok")
+            for a, b in zip(src, ls):
+                if b != "ok":
+                    cert_bad.append((a, b))
+        if (R.broken or cert_bad) and not R.failing and not searched:
+            searched = True
+            rounds += [(R.seed * 104729 + j, n) for j in range(1, 1 + t["search_mult"])]
+    for a, b in cert_bad[:3]:
+        if b == "not-linearizable":
+            R.add_failing("[lin] the Lean checker finds no linearization of a recorded per-key history: " + a[:300], {"suite": suite, "certificate": a})
+        else:
+            R.add_broken("correspondence harness-certificate-vs-Lin.validate: `%s` answered `%s`" % (a[:200], b))
+    for f in (base + ".lin", base + ".progress"):
+        if os.path.exists(f):
+            os.remove(f)
+    R.cov.update({"evaluations": agg["cases"], "distinct_nontrivial": agg["distinct_nontrivial"],
+                  "rule": "small concurrent programs (2-4 threads x 1-5 per-key operations, hot key, six hash classes, table shapes: unallocated / about to resize / 64 bins with a crowded bin) run on the real map under the deterministic baton scheduler (seeded random and PCT priority schedules; every hook is a preemption point: every atomic access, lock acquisition, park/unpark, spin); per key the invocation/response history plus the final contents is searched for a linearization and the witness is validated by the Lean checker; non-trivial = at least two context switches; distinct by (program, schedule)",
+                  "samples": samples, "scheduled": agg})
 
 
 # ------------------------------------------------------------------------------------ the checks
